@@ -36,7 +36,7 @@ MC_CONSTS = """  Pkgs <- MCPkgs
 def mc_cfg(maxplan):
     return (f"SPECIFICATION Spec\nCONSTANTS\n  MaxPlan = {maxplan}\n{MC_CONSTS}CONSTRAINT Bound\n"
             "INVARIANT InvReplay\nINVARIANT InvRefcnt\nINVARIANT InvLimiters\nINVARIANT InvRevSum\nINVARIANT InvChoices\n"
-            "INVARIANT CutIsBacktrack\nPROPERTY RollbackExact\n")
+            "PROPERTY RollbackExact\n")
 
 
 def sim_cfg(maxplan, d):
@@ -333,7 +333,7 @@ def run(ck):
         ck.nontriv("replay2")
         return
     # 1. model checking of the design
-    maxplan = ck.pick(4, 6)
+    maxplan = ck.pick(4, 5)  # 5: 2.0M states, ~2.5 min with 16 workers; 6 does not finish in 100 min
     res = ck.mc("PlanState_MC", cfg_text=mc_cfg(maxplan), workers=ck.pick(8, 16), timeout=ck.pick(1500, 6000),
                 label=f"MC:PlanState_MC MaxPlan={maxplan}", expect_ok=False)
     design_violation = res.violated
